@@ -63,7 +63,8 @@ ASSUMPTIONS = [
     "by maxit while still move-limited is a violation only in block 'conv' whose budget is 3*ceil(max(xmax-xmin)/move)+30 "
     "iterations (measured on the unchanged tree: at most 1.3*ceil(max|x0-x*|/move)+7 responses; histogram in counter conv_iterations_over_distance); a run stopped by tolf>0 right "
     "after a move-limited step is not judged",
-    "objective values are non-zero and finite on the box; tolx > 0",
+    "objective values are non-zero and finite on the box; tolx > 0; 'consecutive evaluated designs differ' is asserted "
+    "only while ||x|| > 0 in floating point (for ||x|| = 0 the relative step size of the code is undefined)",
 ]
 FLOORS = {"quick": {"cases_held": 1200, "distinct_nontrivial": 1000, "designs_checked": 25000, "entries_bounds": 200000,
                     "steps_volume_judged": 17000, "oc_step_components_compared": 140000, "conv_runs_judged": 260,
@@ -647,7 +648,8 @@ def run_case(case, ctx):
                         signal=int(np.searchsorted(cum, j, side="right") - 1), previous=float(p[j]), new=float(q[j]),
                         move=move)
             # consecutive evaluated designs differ (a further response is only reached through a step >= tolx)
-            if recorded and np.array_equal(p, q) and np.any(p != 0):
+            # (undefined when ||x|| underflows to 0: the relative step is nan and the run goes on)
+            if recorded and np.array_equal(p, q) and float(np.linalg.norm(p)) > 0:
                 violate("write-back/design-unchanged-between-responses", step=k, design=q)
             # volume and slice-wise write-back against the reference OC family
             if np.any(p < lo) or np.any(p > hi):
@@ -687,7 +689,7 @@ def run_case(case, ctx):
             if vol_ok and np.any(bad):
                 j = int(np.argmax(np.maximum(q - xl, xs - q)))
                 i = int(np.searchsorted(cum, j, side="right") - 1)
-                violate("write-back/signal-state-outside-its-slice-of-the-oc-step", step=k, signal=i, entry=j,
+                violate("slice-wise/signal-state-is-not-its-slice-of-the-clipped-oc-step", step=k, signal=i, entry=j,
                         state=q[cum[i]:cum[i + 1]], slice_of_oc_step_between=[xs[cum[i]:cum[i + 1]], xl[cum[i]:cum[i + 1]]],
                         previous_state=p[cum[i]:cum[i + 1]], volume=vq, target=Vt,
                         signals_bit_identical_to_previous=[ii for ii in range(nsig)
